@@ -89,6 +89,14 @@ func makeBases(seed int64) *baseInputs {
 }
 
 func textFault(base, kind string, at int, val string) string {
+	if kind == "emptyop" {
+		// one operator of the JSON rule language with an empty / null / one-element / wrong-typed operand list, in the condition
+		// and in an action (JSON rule loader only)
+		ops := []string{"and", "or", "eq", "not", "gt", "gte", "lt", "lte", "bor", "band", "plus", "minus", "div", "mul", "mod", "set", "call", "obj", "const"}
+		op := ops[at%len(ops)]
+		operands := map[string]string{"empty": "[]", "null": "null", "one": "[1]", "object": "{}", "string": `""`}[val]
+		return fmt.Sprintf(`[{"name":"E","desc":"d","salience":1,"when":{"%s":%s},"then":[{"%s":%s}]}]`, op, operands, op, operands)
+	}
 	if val == "selchain" {
 		// a chain of array / map selectors on a call result (dedicated probe: the node signature must not grow faster than the text)
 		if kind == "insert" && at < 4 && (strings.HasPrefix(strings.TrimSpace(base), "rule") || strings.HasPrefix(strings.TrimSpace(base), "Rule") || strings.HasPrefix(strings.TrimSpace(base), "RULE")) {
